@@ -1361,6 +1361,58 @@ impl C18 {
             }
           }
         }
+        // soak: the service has answered many read-only requests before the phase's clients start, so
+        // that whatever happens every N-th request happens while they are served
+        let warm = pu64(phase, "warmup");
+        if warm > 0 {
+          if let Some(mut app) = build_app(&data) {
+            counters.inc("mode.soak");
+            counters.add("soak.warmup_requests", warm);
+            for i in 0..warm {
+              let key = crate::models::ALPHA_KEYS[(i / 3) as usize % crate::models::ALPHA_KEYS.len()];
+              let spec = match i % 3 {
+                0 => json!({"kind": "eval", "m": key}),
+                1 => json!({"kind": "echo", "m": key, "tck": i % 2 == 1, "dec": "s", "s": format!("w\"{}", i), "n": "1", "b": true, "nums": ""}),
+                _ => json!({"kind": "info"}),
+              };
+              let built = build_request(s, &spec);
+              let state = Rc::new(RefCell::new(BodyState::default()));
+              {
+                let mut st = state.borrow_mut();
+                if !built.body.is_empty() {
+                  st.chunks.push_back(built.body.clone());
+                }
+                st.eof = true;
+              }
+              let req = make_request(built.method, &built.path, built.content_type, Some(built.body.len()), Rc::clone(&state));
+              let mut call = app.start(req);
+              let mut answer = None;
+              for _ in 0..10_000 {
+                match poll_call(&mut call) {
+                  PollResult::Pending => continue,
+                  PollResult::Ready(resp) => {
+                    answer = Some(Ok(resp));
+                    break;
+                  }
+                  PollResult::Panicked(rec) => {
+                    answer = Some(Err(rec));
+                    break;
+                  }
+                }
+              }
+              dmntk_verif_sync::flush();
+              let verdict = match answer {
+                Some(Ok(resp)) => classify_response(&built.op, &built.label, &resp, event_base).map(|_| ()),
+                Some(Err(rec)) => Err(viol("no-response", &format!("soak:{}:{}", built.op.kind(), panic_site(&rec)), event_base, format!("warm-up request {} `{}` is answered", i, built.label), rec)),
+                None => Err(viol("no-response", &format!("soak:{}:never-ready", built.op.kind()), event_base, format!("warm-up request {} `{}` is answered", i, built.label), "the handler stayed pending".into())),
+              };
+              if let Err(v) = verdict {
+                fail(v, vec![format!("phase {} warm-up request {} of {}", pi, i, warm)], counters.clone());
+                return;
+              }
+            }
+          }
+        }
         let n_workers = (pu64(phase, "workers") as usize).clamp(1, 4);
         let clients: Vec<Vec<Value>> = parr(phase, "clients").iter().map(|c| c.as_array().cloned().unwrap_or_default()).collect();
         let net = Arc::new(Mutex::new(Net {
@@ -2118,6 +2170,12 @@ impl Sim for C18 {
     };
     let mut sched = kind;
     sched["seed"] = json!(rng.next_u64() >> 1);
+    if rng.chance(1, 30) && !phases.is_empty() {
+      let pi = rng.index(phases.len());
+      let threshold = *rng.pick(&[16u64, 32, 64, 100, 128, 255, 256, 500, 512, 1000, 1024]);
+      let requests: u64 = parr(&phases[pi], "clients").iter().map(|c| c.as_array().map(|a| a.len() as u64).unwrap_or(0)).sum();
+      phases[pi]["warmup"] = json!(threshold.saturating_sub(1 + rng.below(requests.max(1))));
+    }
     json!({"faults": faults, "phases": phases, "sched": sched})
   }
   fn exec(&self, plan: &Value, mode: &ExecMode) -> Outcome {
